@@ -165,7 +165,7 @@ Proof.
              pose proof (Inv_idx_le i st2 a HI2 HRa). specialize (Hm2 a). lia.
         * rewrite IHa. reflexivity.
       + rewrite IH. reflexivity. }
-  cbn [get_buffer].
+  cbn [get_buffer]. unfold m_node_cached, m_node_pull.
   pose proof HInv as (Hlen & Hn & Hc).
   destruct (Hn k HR) as (s & Es & Hidx & Hok1 & Hok2).
   assert (Hkg : (k < length g)%nat) by (apply Rrange; exact HR).
